@@ -84,6 +84,13 @@ def consensus_task(task):
             data = gen.make_data(rng, n, D, 11, kind="smooth")
             samples = ["S%d" % i for i in range(D)]
             forests, label = structured_forests(rng, n, c)
+            if c % 7 == 3:
+                # the same mixture several hundred entries long (counts beyond one byte, supports unchanged)
+                reps = -(-int(rng.integers(270, 400)) // len(forests))
+                forests = list(forests) * reps
+                rng.shuffle(forests)
+                label += " (x%d)" % reps
+                part.count("long_traces")
             n_chains = int(rng.integers(1, 4))
             # one entry per listed forest (so that the listed multiplicities are the supports), spread over chains
             results = {}
